@@ -158,6 +158,16 @@ theorem commitDItem_ok (hw : WF t₀) (hi : DTxOK t₀ tx₀) (hs : DStatic t₀
       have h0 := h.drop (.inl (by simp)) hi hmem
       obtain ⟨ep, ek⟩ := h.dOld x hx o hot hxh.symm
       have h1 := h0.replace (d := x) (d' := { o with ver := n.ver, body := n.body }) hx hxh.symm ep ek
+        (by
+          intro d0 hd0 e
+          have : d0 = o := mem_unique hw.dKeys hd0 hot (e.trans hxh)
+          subst this
+          have := (hi.dUpd _ hmem d0 rfl n rfl).2
+          simp only; omega)
+        (by
+          intro hnone
+          have := (find_none_iff (fun d : Descr => d.handle)).1 hnone
+          exact absurd (hxh ▸ List.mem_map_of_mem hot) this)
       have h1' : CInv t₀ tx₀ del pend (fun y => pendUpd pend y ∨ y = k) (replaceDescr c.t { o with ver := n.ver, body := n.body }) c.tx := by
         refine h1.mono_st ?_
         rintro y (hy | hy)
